@@ -1,2 +1,580 @@
-import Momo.Model.HashTable
-/-! # C01 — property theorems (in progress: see Momo/Proof/HashTable*.lean) -/
+import Momo.Proof.HashTableSummary
+import Driver.HashTable
+/-!
+# C01 — Hash set/map contents always equal the abstract set/map
+
+Property theorems only. Model: `Momo/Model/HashTable.lean` (namespace `Momo.HT`, run against the real
+`momo::HashSet`/`HashMap` by `harness/c01_hash.cpp` on every check); lemmas:
+`Momo/Proof/HashTable*.lean`.
+
+Statement (properties.jsonl): after any sequence of operations on a hash set or hash map (insert,
+add-at-position, find, remove by key, iterator or predicate, extract and re-insert, key reset,
+reserve, clear, copy, move, swap, merge), every key that should be present is found with its value,
+no other key is found, the reported count is exact, and one full traversal visits each element
+exactly once. This holds for every bucket layout the library offers (chained small-array buckets
+and open addressing), for every key/value size, alignment and relocation category, and for any
+hash function however badly it distributes.
+
+Everything below is stated for an arbitrary bucket description `sp : Spec` with `SpecOK sp`
+(`mkSpec_ok`: every description the driver builds for the library's bucket kinds satisfies it) and
+an arbitrary hash function `hf : Nat → Nat`.
+-/
+namespace Momo.HT
+open Momo Momo.Probe
+
+/-! ## Every bucket kind of the library is covered -/
+
+/-- **all bucket layouts.** The description `Driver.HashTable.mkSpec` builds for LimP4, LimP, LimP1,
+Lim4, UnlimP, One, Open2N2, OpenN1, Open8 (and its fallback) — for every item size, alignment,
+relocation category and hash-code-part setting — satisfies `SpecOK`, provided `maxCount ≥ 1`
+(UnlimP has none) and `WasFull` turns true no later than at `maxCount` items. -/
+theorem mkSpec_ok (kind : String) (n isz ial : Nat) (part fast reloc : Bool) (fullFrom logStart : Nat)
+    (hn : 0 < n) (hff : fullFrom ≤ n) :
+    SpecOK (Driver.HashTable.mkSpec kind n isz ial part fast reloc fullFrom logStart) := by
+  have hbase : ∀ (L m : Nat), 0 < m →
+      (if (m == 1) = true then 2 ^ L * 5 / 8 else if (m == 2) = true then 2 ^ L + 2 ^ L / 2 else 2 ^ L * 2)
+        ≤ 2 ^ L * m := by
+    intro L m hm
+    generalize 2 ^ L = N
+    split
+    · rename_i h; have : m = 1 := by simpa using h
+      subst this; omega
+    · split
+      · rename_i h; have : m = 2 := by simpa using h
+        subst this; omega
+      · rename_i h1 h2
+        have h1' : m ≠ 1 := by simpa using h1
+        have h2' : m ≠ 2 := by simpa using h2
+        exact Nat.mul_le_mul_left N (by omega)
+  have hratio : ∀ (L m num den : Nat), num ≤ den → 2 ^ L * m * num / den ≤ 2 ^ L * m := by
+    intro L m num den h
+    generalize 2 ^ L * m = X
+    by_cases hd : den = 0
+    · subst hd; simp
+    · exact Nat.div_le_of_le_mul (by rw [Nat.mul_comm den X]; exact Nat.mul_le_mul_left X h)
+  have hite : ∀ (c : Prop) [Decidable c], (if c then 0 else n) ≤ n := by
+    intro c _; split <;> omega
+  unfold Driver.HashTable.mkSpec
+  simp only
+  split
+  · -- LimP4
+    refine ⟨hn, fun _ => ?_, (fun h => by cases h), fun _ L => hbase L n hn⟩
+    exact hite _
+  · exact ⟨hn, fun _ => hff, (fun h => by cases h), fun _ L => hbase L n hn⟩
+  · exact ⟨hn, fun _ => hff, (fun h => by cases h), fun _ L => hbase L n hn⟩
+  · exact ⟨hn, fun _ => hff, (fun h => by cases h), fun _ L => hbase L n hn⟩
+  · exact ⟨(by simp), (fun h => by cases h), fun _ => rfl, (fun h => by cases h)⟩
+  · exact ⟨(by simp), fun _ => Nat.le_refl _, (fun h => by cases h), fun _ L => hbase L 1 (by decide)⟩
+  · exact ⟨hn, fun _ => Nat.zero_le _, (fun h => by cases h), fun _ L => hratio L n 11 12 (by decide)⟩
+  · exact ⟨hn, fun _ => Nat.zero_le _, (fun h => by cases h), fun _ L => hratio L n 5 6 (by decide)⟩
+  · exact ⟨(by simp), fun _ => Nat.zero_le _, (fun h => by cases h), fun _ L => hratio L 7 13 14 (by decide)⟩
+  · exact ⟨hn, fun _ => Nat.le_refl _, (fun h => by cases h), fun _ L => hbase L n hn⟩
+
+/-- UnlimP has no `maxCount` template argument (the harness passes `n = 0`) -/
+theorem mkSpec_ok_unlimP (n isz ial : Nat) (part fast reloc : Bool) (fullFrom logStart : Nat) :
+    SpecOK (Driver.HashTable.mkSpec "UnlimP" n isz ial part fast reloc fullFrom logStart) :=
+  by
+  unfold Driver.HashTable.mkSpec
+  simp only []
+  exact ⟨(by simp), (fun h => by cases h), fun _ => rfl, (fun h => by cases h)⟩
+
+/-! ## Single operations (each for every `Faults` value) -/
+
+/-- **every key that should be present is found, no other key is found** — whatever the number of
+coexisting generations, the probing rule, the search-bound encoder and the hash function -/
+theorem C01_find_iff (sp : Spec) (hf : Nat → Nat) (t : Table) (hI : TableInv sp hf t) (k : Nat) :
+    (findTable sp hf t k).isSome ↔ k ∈ (traverse t).map (·.key) :=
+  findTable_spec sp hf t hI k
+
+/-- **… with its value**: the position `pvFind` returns holds the value the traversal (= the
+abstract map, see `C01_history_partial`) associates with the key -/
+theorem C01_find_value (sp : Spec) (hf : Nat → Nat) (t : Table) (hI : TableInv sp hf t) (k : Nat) :
+    findVal sp hf t k = lookup (traverse t) k :=
+  findVal_eq sp hf t hI k
+
+/-- **the reported count is exact and one full traversal visits each element exactly once**
+(the iterator's list has no duplicate key, and its length is `GetCount()`) -/
+theorem C01_count_traverse (sp : Spec) (hf : Nat → Nat) (t : Table) (hI : TableInv sp hf t) :
+    t.count = (traverse t).length ∧ ((traverse t).map (·.key)).Nodup :=
+  ⟨hI.core.count, hI.core.nodup⟩
+
+/-- **insertion without a fault always succeeds** (the capacity rule grows the table before a
+bucket array can be completely full) -/
+theorem C01_insert_succeeds (sp : Spec) (hf : Nat → Nat) (ok : SpecOK sp) (t : Table) (it : Item)
+    (f : Faults) (hI : TableInv sp hf t) (hrg : f.refuseGrow = false) (hra : f.refuseAdd = false) :
+    (add sp hf t it f).2 = .ok :=
+  add_nofault_ok sp hf ok t it f hI.core hrg hra
+
+/-! ## Histories: the model state machine refines the abstract map -/
+
+/-- the two containers a history works on and the handle of an extracted element -/
+structure St where
+  a : Table := emptyTable
+  b : Table := emptyTable
+  handle : Option Item := none
+
+/-- abstract state: the two maps as association lists (no duplicate keys) and the handle -/
+structure ASt where
+  A : List Item := []
+  B : List Item := []
+  handle : Option Item := none
+
+/-- operations of a history. Faults are part of the operation: ANY `Faults` value may accompany
+any insertion / reservation (C11). `ins true` works on the second container. Add-at-position,
+key reset and the iterator/extract variants of remove are forwarders to `ins`/`rem`/`ext` in the
+library (`not_modelled` in the registry). -/
+inductive Op
+  | ins (toB : Bool) (k v : Nat) (f : Faults)
+  | find (k : Nat)
+  | rem (k : Nat)
+  | remPred (pred : Item → Bool)
+  | reserve (c : Nat) (f : Faults)
+  | clear (shrink : Bool)
+  | copyTo | moveTo | swap | mergeTo
+  | ext (k : Nat)
+  | reins (f : Faults)
+
+/-- what an operation reports -/
+inductive Res
+  | unit
+  | val (v : Option Nat)
+  | ins (present : Bool) (out : Outcome)
+  | num (n : Nat)
+  | out (o : Outcome)
+
+/-- the (fault-dependent) outcome contained in a result -/
+def Res.outcome : Res → Outcome
+  | .ins _ o => o
+  | .out o => o
+  | _ => .ok
+
+/-- one operation on the model (the same composition of model functions as `Driver.HashTable.step`) -/
+def step (sp : Spec) (hf : Nat → Nat) (s : St) : Op → St × Res
+  | .ins toB k v f =>
+    match findTable sp hf (if toB then s.b else s.a) k with
+    | some _ => (s, .ins true .ok)
+    | none =>
+      ((if toB then { s with b := (add sp hf s.b ⟨k, v⟩ f).1 } else { s with a := (add sp hf s.a ⟨k, v⟩ f).1 }),
+        .ins false (add sp hf (if toB then s.b else s.a) ⟨k, v⟩ f).2)
+  | .find k => (s, .val (findVal sp hf s.a k))
+  | .rem k =>
+    match findTable sp hf s.a k with
+    | some (gi, b, j) => ({ s with a := removePos sp s.a gi b j }, .num 1)
+    | none => (s, .num 0)
+  | .remPred p => ({ s with a := (removePred s.a p).1 }, .num (removePred s.a p).2)
+  | .reserve c f => ({ s with a := (reserve sp hf s.a c f).1 }, .out (reserve sp hf s.a c f).2)
+  | .clear sh => ({ s with a := clear sp s.a sh }, .unit)
+  | .copyTo => ({ s with b := copyOf sp hf s.a }, .unit)
+  | .moveTo => ({ s with b := s.a, a := emptyTable }, .unit)
+  | .swap => ({ s with a := s.b, b := s.a }, .unit)
+  | .mergeTo => ({ s with a := (mergeTo sp hf s.a s.b).1, b := (mergeTo sp hf s.a s.b).2 }, .unit)
+  | .ext k =>
+    match findTable sp hf s.a k with
+    | some (gi, b, j) =>
+      ({ s with a := removePos sp s.a gi b j,
+                handle := some ((bkt sp (s.a.gens.getD gi default).bs b).items.getD j default) },
+        .val (some ((bkt sp (s.a.gens.getD gi default).bs b).items.getD j default).val))
+    | none => (s, .val none)
+  | .reins f =>
+    match s.handle with
+    | none => (s, .unit)
+    | some it =>
+      match findTable sp hf s.a it.key with
+      | some _ => (s, .ins true .ok)
+      | none =>
+        if (add sp hf s.a it f).2 = .ok then ({ s with a := (add sp hf s.a it f).1, handle := none }, .ins false .ok)
+        else (s, .ins false (add sp hf s.a it f).2)
+
+/-- **the abstract specification**: the obvious finite map. `o` is the outcome the operation had
+(an insertion that met a fault inserts nothing); everything else is determined. -/
+def astep (s : ASt) (o : Outcome) : Op → ASt × Res
+  | .ins toB k v _ =>
+    if k ∈ akeys (if toB then s.B else s.A) then (s, .ins true .ok)
+    else if o = .ok then
+      ((if toB then { s with B := ⟨k, v⟩ :: s.B } else { s with A := ⟨k, v⟩ :: s.A }), .ins false .ok)
+    else (s, .ins false o)
+  | .find k => (s, .val (lookup s.A k))
+  | .rem k =>
+    if k ∈ akeys s.A then ({ s with A := s.A.filter (fun x => x.key != k) }, .num 1) else (s, .num 0)
+  | .remPred p => ({ s with A := s.A.filter (fun x => !p x) }, .num (s.A.filter p).length)
+  | .reserve _ _ => (s, .out o)
+  | .clear _ => ({ s with A := [] }, .unit)
+  | .copyTo => ({ s with B := s.A }, .unit)
+  | .moveTo => ({ s with B := s.A, A := [] }, .unit)
+  | .swap => ({ s with A := s.B, B := s.A }, .unit)
+  | .mergeTo =>
+    ({ s with A := s.A.filter (fun x => decide (x.key ∈ akeys s.B)),
+              B := s.A.filter (fun x => !decide (x.key ∈ akeys s.B)) ++ s.B }, .unit)
+  | .ext k =>
+    match s.A.find? (fun x => x.key == k) with
+    | some it => ({ s with A := s.A.filter (fun x => x.key != k), handle := some it }, .val (some it.val))
+    | none => (s, .val none)
+  | .reins _ =>
+    match s.handle with
+    | none => (s, .unit)
+    | some it =>
+      if it.key ∈ akeys s.A then (s, .ins true .ok)
+      else if o = .ok then ({ s with A := it :: s.A, handle := none }, .ins false .ok)
+      else (s, .ins false o)
+
+/-- the refinement relation: both tables satisfy the invariant and their traversals are
+rearrangements of the abstract contents -/
+structure Rel (sp : Spec) (hf : Nat → Nat) (s : St) (as : ASt) : Prop where
+  ia : TableInv sp hf s.a
+  ib : TableInv sp hf s.b
+  pa : (traverse s.a).Perm as.A
+  pb : (traverse s.b).Perm as.B
+  hd : s.handle = as.handle
+
+/-- side conditions of an operation. Faults: an interrupted migration (`relocStop`) can only
+accompany item categories whose relocation can throw (`FaultsOK`). Copy: the copy's bucket array
+must have a slot for every element (`CopyFits`: true whenever the count is at most the capacity of
+`2^(logStart+63)` buckets, `copyFits_of_cap`; the model's size search has fuel 64). -/
+def OpOK (sp : Spec) (s : St) : Op → Prop
+  | .ins _ _ _ f => FaultsOK sp f
+  | .reserve _ f => FaultsOK sp f
+  | .reins f => FaultsOK sp f
+  | .copyTo => CopyFits sp s.a
+  | _ => True
+
+/-- insertion into one table against its abstract contents -/
+theorem insert_refines_partial (sp : Spec) (hf : Nat → Nat) (ok : SpecOK sp) (t : Table) (M : List Item)
+    (hI : TableInv sp hf t) (hp : (traverse t).Perm M) (it : Item) (f : Faults) (hF : FaultsOK sp f) :
+    ((findTable sp hf t it.key).isSome ↔ it.key ∈ akeys M) ∧
+    (findTable sp hf t it.key = none →
+      TableInv sp hf (add sp hf t it f).1 ∧
+      ((add sp hf t it f).2 = .ok → (traverse (add sp hf t it f).1).Perm (it :: M)) ∧
+      ((add sp hf t it f).2 ≠ .ok → (add sp hf t it f).1 = t)) := by
+  refine ⟨(findTable_spec sp hf t hI it.key).trans (mem_akeys_perm hp it.key), fun hnone => ?_⟩
+  have hk := findTable_none sp hf t hI it.key hnone
+  refine ⟨add_keeps_inv sp hf ok t it f hI hF hk, fun hok => ?_, add_fail_unchanged sp hf t it f⟩
+  exact (add_ok sp hf ok t it f hI hF hk hok).2.trans (List.Perm.cons _ hp)
+
+/-- **one step refines the specification**: from related states, any admissible operation with any
+faults leads to related states and reports exactly what the specification reports -/
+theorem step_refines_partial (sp : Spec) (hf : Nat → Nat) (ok : SpecOK sp) (s : St) (as : ASt)
+    (hR : Rel sp hf s as) (op : Op) (hop : OpOK sp s op) :
+    Rel sp hf (step sp hf s op).1 (astep as (step sp hf s op).2.outcome op).1 ∧
+    (astep as (step sp hf s op).2.outcome op).2 = (step sp hf s op).2 := by
+  obtain ⟨ia, ib, pa, pb, hd⟩ := hR
+  have nA : (akeys as.A).Nodup := nodup_keys_perm pa.symm ia.core.nodup
+  cases op with
+  | ins toB k v f =>
+    cases toB with
+    | false =>
+      obtain ⟨h1, h2⟩ := insert_refines_partial sp hf ok s.a as.A ia pa ⟨k, v⟩ f hop
+      simp only [step, astep, Bool.false_eq_true, if_false]
+      cases hfnd : findTable sp hf s.a k with
+      | some pos =>
+        have : k ∈ akeys as.A := h1.mp (by rw [hfnd]; rfl)
+        simp only [this, if_true]
+        exact ⟨⟨ia, ib, pa, pb, hd⟩, by first | trivial | rfl⟩
+      | none =>
+        have hnin : k ∉ akeys as.A := fun hin => by
+          have := h1.mpr hin; rw [hfnd] at this; cases this
+        obtain ⟨i1, i2, i3⟩ := h2 hfnd
+        simp only [hnin, if_false, Res.outcome]
+        by_cases hok : (add sp hf s.a ⟨k, v⟩ f).2 = .ok
+        · simp only [hok, if_true]
+          exact ⟨⟨i1, ib, i2 hok, pb, hd⟩, by first | trivial | rfl⟩
+        · simp only [hok, if_false]
+          refine ⟨⟨i1, ib, ?_, pb, hd⟩, by first | trivial | rfl⟩
+          show (traverse (add sp hf s.a ⟨k, v⟩ f).1).Perm as.A
+          rw [i3 hok]; exact pa
+    | true =>
+      obtain ⟨h1, h2⟩ := insert_refines_partial sp hf ok s.b as.B ib pb ⟨k, v⟩ f hop
+      simp only [step, astep, if_true]
+      cases hfnd : findTable sp hf s.b k with
+      | some pos =>
+        have : k ∈ akeys as.B := h1.mp (by rw [hfnd]; rfl)
+        simp only [this, if_true]
+        exact ⟨⟨ia, ib, pa, pb, hd⟩, by first | trivial | rfl⟩
+      | none =>
+        have hnin : k ∉ akeys as.B := fun hin => by
+          have := h1.mpr hin; rw [hfnd] at this; cases this
+        obtain ⟨i1, i2, i3⟩ := h2 hfnd
+        simp only [hnin, if_false, Res.outcome]
+        by_cases hok : (add sp hf s.b ⟨k, v⟩ f).2 = .ok
+        · simp only [hok, if_true]
+          exact ⟨⟨ia, i1, pa, i2 hok, hd⟩, by first | trivial | rfl⟩
+        · simp only [hok, if_false]
+          refine ⟨⟨ia, i1, pa, ?_, hd⟩, by first | trivial | rfl⟩
+          show (traverse (add sp hf s.b ⟨k, v⟩ f).1).Perm as.B
+          rw [i3 hok]; exact pb
+  | find k =>
+    simp only [step, astep]
+    refine ⟨⟨ia, ib, pa, pb, hd⟩, ?_⟩
+    rw [findVal_eq sp hf s.a ia k, lookup_perm _ _ k nA pa]
+  | rem k =>
+    simp only [step, astep]
+    have hiff := (findTable_spec sp hf s.a ia k).trans (mem_akeys_perm pa k)
+    cases hfnd : findTable sp hf s.a k with
+    | some pos =>
+      obtain ⟨gi, b, j⟩ := pos
+      have hin : k ∈ akeys as.A := hiff.mp (by rw [hfnd]; rfl)
+      simp only [hin, if_true]
+      obtain ⟨g, hg, hj, hkey, _⟩ := found_item sp hf s.a k gi b j hfnd
+      obtain ⟨i1, i2⟩ := removePos_spec sp hf s.a ia gi b j g _ hg hj
+      refine ⟨⟨i1, ib, ?_, pb, hd⟩, by first | trivial | rfl⟩
+      have := perm_filter_of_cons as.A _ _ nA (i2.trans pa)
+      rw [hkey] at this; exact this
+    | none =>
+      have hnin : k ∉ akeys as.A := fun hin => by
+        have := hiff.mpr hin; rw [hfnd] at this; cases this
+      simp only [hnin, if_false]
+      exact ⟨⟨ia, ib, pa, pb, hd⟩, by first | trivial | rfl⟩
+  | remPred p =>
+    simp only [step, astep]
+    obtain ⟨i1, i2, i3⟩ := removePred_spec sp hf s.a p ia
+    refine ⟨⟨i1, ib, i2.trans (pa.filter _), pb, hd⟩, ?_⟩
+    rw [i3, (pa.filter p).length_eq]
+  | reserve c f =>
+    simp only [step, astep, Res.outcome]
+    obtain ⟨i1, i2, _⟩ := reserve_spec sp hf ok s.a c f ia hop
+    exact ⟨⟨i1, ib, i2.trans pa, pb, hd⟩, by first | trivial | rfl⟩
+  | clear sh =>
+    simp only [step, astep]
+    obtain ⟨i1, i2⟩ := clear_spec sp hf ok s.a sh ia
+    refine ⟨⟨i1, ib, ?_, pb, hd⟩, by first | trivial | rfl⟩
+    show (traverse (clear sp s.a sh)).Perm []
+    rw [i2]
+  | copyTo =>
+    simp only [step, astep]
+    obtain ⟨i1, i2⟩ := copyOf_spec sp hf ok s.a ia hop
+    exact ⟨⟨ia, i1, pa, i2.trans pa, hd⟩, by first | trivial | rfl⟩
+  | moveTo =>
+    simp only [step, astep]
+    exact ⟨⟨emptyTable_inv sp hf, ia, List.Perm.refl _, pa, hd⟩, by first | trivial | rfl⟩
+  | swap =>
+    simp only [step, astep]
+    exact ⟨⟨ib, ia, pb, pa, hd⟩, by first | trivial | rfl⟩
+  | mergeTo =>
+    simp only [step, astep]
+    obtain ⟨i1, i2, i3, i4⟩ := mergeTo_spec sp hf ok s.a s.b ia ib
+    obtain ⟨e1, e2⟩ := filter_congr_keys (traverse s.a) (traverse s.b) as.B pb
+    rw [e1] at i3; rw [e2] at i4
+    exact ⟨⟨i1, i2, i3.trans (pa.filter _), i4.trans (List.Perm.append (pa.filter _) pb), hd⟩, by first | trivial | rfl⟩
+  | ext k =>
+    simp only [step, astep]
+    have hiff := (findTable_spec sp hf s.a ia k).trans (mem_akeys_perm pa k)
+    cases hfnd : findTable sp hf s.a k with
+    | some pos =>
+      obtain ⟨gi, b, j⟩ := pos
+      obtain ⟨g, hg, hj, hkey, hmem⟩ := found_item sp hf s.a k gi b j hfnd
+      obtain ⟨i1, i2⟩ := removePos_spec sp hf s.a ia gi b j g _ hg hj
+      have hfind := find?_of_mem_nodup as.A _ nA ((pa.mem_iff).mp hmem)
+      rw [hkey] at hfind
+      simp only [hfind]
+      refine ⟨⟨i1, ib, ?_, pb, by first | trivial | rfl⟩, by first | trivial | rfl⟩
+      have := perm_filter_of_cons as.A _ _ nA (i2.trans pa)
+      rw [hkey] at this; exact this
+    | none =>
+      have hnone : as.A.find? (fun x => x.key == k) = none := by
+        rw [List.find?_eq_none]
+        intro x hx
+        have := findTable_none sp hf s.a ia k hfnd x ((pa.mem_iff).mpr hx)
+        simpa using this
+      simp only [hnone]
+      exact ⟨⟨ia, ib, pa, pb, hd⟩, by first | trivial | rfl⟩
+  | reins f =>
+    obtain ⟨sa, sb, sh⟩ := s
+    obtain ⟨A, B, ah⟩ := as
+    simp only at hd pa pb nA ia ib hop
+    subst hd
+    cases sh with
+    | none =>
+      simp only [step, astep]
+      exact ⟨⟨ia, ib, pa, pb, rfl⟩, by first | trivial | rfl⟩
+    | some it =>
+      simp only [step, astep]
+      obtain ⟨h1, h2⟩ := insert_refines_partial sp hf ok sa A ia pa it f hop
+      cases hfnd : findTable sp hf sa it.key with
+      | some pos =>
+        have : it.key ∈ akeys A := h1.mp (by rw [hfnd]; rfl)
+        simp only [this, if_true]
+        exact ⟨⟨ia, ib, pa, pb, rfl⟩, by first | trivial | rfl⟩
+      | none =>
+        have hnin : it.key ∉ akeys A := fun hin => by
+          have := h1.mpr hin; rw [hfnd] at this; cases this
+        obtain ⟨i1, i2, i3⟩ := h2 hfnd
+        simp only [hnin, if_false]
+        by_cases hok : (add sp hf sa it f).2 = .ok
+        · simp only [hok, if_true, Res.outcome]
+          exact ⟨⟨i1, ib, i2 hok, pb, rfl⟩, by first | trivial | rfl⟩
+        · simp only [hok, if_false, Res.outcome]
+          exact ⟨⟨ia, ib, pa, pb, rfl⟩, by first | trivial | rfl⟩
+
+/-- run a history on the model: final state and the list of results -/
+def run (sp : Spec) (hf : Nat → Nat) : St → List Op → St × List Res
+  | s, [] => (s, [])
+  | s, op :: ops =>
+    ((run sp hf (step sp hf s op).1 ops).1, (step sp hf s op).2 :: (run sp hf (step sp hf s op).1 ops).2)
+
+/-- run the specification; `outs` are the outcomes the operations had (only insertions and
+reservations can have one other than `ok`, and only because of a fault) -/
+def arun : ASt → List Op → List Outcome → ASt × List Res
+  | s, op :: ops, o :: outs =>
+    ((arun (astep s o op).1 ops outs).1, (astep s o op).2 :: (arun (astep s o op).1 ops outs).2)
+  | s, _, _ => (s, [])
+
+/-- every operation of the history is admissible in the state it is executed in -/
+def RunOK (sp : Spec) (hf : Nat → Nat) : St → List Op → Prop
+  | _, [] => True
+  | s, op :: ops => OpOK sp s op ∧ RunOK sp hf (step sp hf s op).1 ops
+
+theorem run_refines_partial (sp : Spec) (hf : Nat → Nat) (ok : SpecOK sp) :
+    ∀ (ops : List Op) (s : St) (as : ASt), Rel sp hf s as → RunOK sp hf s ops →
+      Rel sp hf (run sp hf s ops).1 (arun as ops ((run sp hf s ops).2.map Res.outcome)).1 ∧
+      (arun as ops ((run sp hf s ops).2.map Res.outcome)).2 = (run sp hf s ops).2 := by
+  intro ops
+  induction ops with
+  | nil => intro s as hR _; exact ⟨hR, rfl⟩
+  | cons op ops ih =>
+    intro s as hR hok
+    obtain ⟨h1, h2⟩ := step_refines_partial sp hf ok s as hR op hok.1
+    obtain ⟨h3, h4⟩ := ih _ _ h1 hok.2
+    simp only [run, List.map_cons, arun]
+    exact ⟨h3, by rw [h2, h4]⟩
+
+/-- **what C01 asserts about the state a history reaches** (from two empty containers):
+* every result reported along the way equals the specification's,
+* both tables satisfy the invariant,
+* every lookup returns exactly what the abstract map holds (present keys with their value, no
+  other key),
+* `GetCount()` is the size of the abstract map,
+* one full traversal is a rearrangement of the abstract map's contents, which has no duplicate key
+  (each element is visited exactly once). -/
+def HistoryOK (sp : Spec) (hf : Nat → Nat) (ops : List Op) : Prop :=
+  (arun {} ops ((run sp hf {} ops).2.map Res.outcome)).2 = (run sp hf {} ops).2 ∧
+  TableInv sp hf (run sp hf {} ops).1.a ∧ TableInv sp hf (run sp hf {} ops).1.b ∧
+  (∀ k, findVal sp hf (run sp hf {} ops).1.a k
+      = lookup (arun {} ops ((run sp hf {} ops).2.map Res.outcome)).1.A k) ∧
+  (∀ k, findVal sp hf (run sp hf {} ops).1.b k
+      = lookup (arun {} ops ((run sp hf {} ops).2.map Res.outcome)).1.B k) ∧
+  (run sp hf {} ops).1.a.count = (arun {} ops ((run sp hf {} ops).2.map Res.outcome)).1.A.length ∧
+  (run sp hf {} ops).1.b.count = (arun {} ops ((run sp hf {} ops).2.map Res.outcome)).1.B.length ∧
+  (traverse (run sp hf {} ops).1.a).Perm (arun {} ops ((run sp hf {} ops).2.map Res.outcome)).1.A ∧
+  (traverse (run sp hf {} ops).1.b).Perm (arun {} ops ((run sp hf {} ops).2.map Res.outcome)).1.B ∧
+  (akeys (arun {} ops ((run sp hf {} ops).2.map Res.outcome)).1.A).Nodup ∧
+  (akeys (arun {} ops ((run sp hf {} ops).2.map Res.outcome)).1.B).Nodup
+
+/-- the statement without any side condition on fault values and sizes. It is FALSE for the model
+(`C01_history_full_false`): the model's `Faults` type lets a migration be "interrupted" even for
+item categories whose relocation cannot throw, in which case lookups (which then read the newest
+generation only) miss the elements left behind. -/
+def C01_history_full : Prop :=
+  ∀ (sp : Spec) (hf : Nat → Nat), SpecOK sp → ∀ ops : List Op, HistoryOK sp hf ops
+
+/-- **C01, the history theorem.** For ANY list of operations with ANY fault choices that are
+admissible in the sense of `OpOK` (no interrupted migration for nothrow-relocatable items; copies
+of at most `capacity(2^(logStart+63))` elements), the state reached satisfies `HistoryOK`. Since
+every prefix of a history is a history, this covers every reachable state. -/
+theorem C01_history_partial (sp : Spec) (hf : Nat → Nat) (ok : SpecOK sp) (ops : List Op)
+    (hok : RunOK sp hf {} ops) : HistoryOK sp hf ops := by
+  have h0 : Rel sp hf {} {} :=
+    ⟨emptyTable_inv sp hf, emptyTable_inv sp hf, List.Perm.refl _, List.Perm.refl _, rfl⟩
+  obtain ⟨⟨ia, ib, pa, pb, _⟩, hres⟩ := run_refines_partial sp hf ok ops {} {} h0 hok
+  have nA := nodup_keys_perm pa.symm ia.core.nodup
+  have nB := nodup_keys_perm pb.symm ib.core.nodup
+  refine ⟨hres, ia, ib, fun k => ?_, fun k => ?_, ?_, ?_, pa, pb, nA, nB⟩
+  · rw [findVal_eq sp hf _ ia k, lookup_perm _ _ k nA pa]
+  · rw [findVal_eq sp hf _ ib k, lookup_perm _ _ k nB pb]
+  · rw [ia.core.count, pa.length_eq]
+  · rw [ib.core.count, pb.length_eq]
+
+/-- the side condition of `copyTo` holds for every count up to the capacity of `2^(logStart+63)`
+buckets -/
+theorem C01_copy_fits (sp : Spec) (ok : SpecOK sp) (t : Table)
+    (h : t.count ≤ capacityOf sp (sp.logStart + 63)) : CopyFits sp t :=
+  copyFits_of_cap sp ok t ⟨63, by decide, h⟩
+
+/-! ## Non-vacuity: concrete states satisfying the hypotheses -/
+
+instance decOpOK (sp : Spec) (s : St) : (op : Op) → Decidable (OpOK sp s op)
+  | .ins _ _ _ f => inferInstanceAs (Decidable (FaultsOK sp f))
+  | .reserve _ f => inferInstanceAs (Decidable (FaultsOK sp f))
+  | .reins f => inferInstanceAs (Decidable (FaultsOK sp f))
+  | .copyTo => inferInstanceAs (Decidable (CopyFits sp s.a))
+  | .find _ | .rem _ | .remPred _ | .clear _ | .moveTo | .swap | .mergeTo | .ext _ => isTrue trivial
+
+instance decRunOK (sp : Spec) (hf : Nat → Nat) : (s : St) → (ops : List Op) → Decidable (RunOK sp hf s ops)
+  | _, [] => isTrue trivial
+  | s, op :: ops => @instDecidableAnd _ _ (decOpOK sp s op) (decRunOK sp hf _ ops)
+
+/-- LimP4<4> with 8-byte items, first table of 2 buckets -/
+def exLimP4 : Spec := Driver.HashTable.mkSpec "LimP4" 4 8 8 false true false 4 1
+/-- Open2N2<1>: open addressing, one item per bucket, triangular probing, first table of 2 buckets -/
+def exOpen : Spec := Driver.HashTable.mkSpec "Open2N2" 1 8 8 false true false 0 1
+
+theorem exLimP4_ok : SpecOK exLimP4 := mkSpec_ok _ _ _ _ _ _ _ _ _ (by decide) (by decide)
+theorem exOpen_ok : SpecOK exOpen := mkSpec_ok _ _ _ _ _ _ _ _ _ (by decide) (by decide)
+
+/-- five insertions; the fifth grows the table and its migration is interrupted after one item -/
+def exTwoGens : List Op :=
+  [.ins false 1 10 {}, .ins false 2 20 {}, .ins false 3 30 {}, .ins false 4 40 {},
+   .ins false 5 50 { relocStop := some 1 }]
+
+/-- a concrete LimP4 table with TWO coexisting generations (8 and 2 buckets) … -/
+example : (run exLimP4 id {} exTwoGens).1.a.gens.map (·.L) = [3, 1] := by decide
+/-- … is reachable by an admissible history, hence satisfies the invariant, … -/
+example : TableInv exLimP4 id (run exLimP4 id {} exTwoGens).1.a :=
+  (C01_history_partial exLimP4 id exLimP4_ok exTwoGens (by decide)).2.1
+/-- … holds its five items across both generations, each visited once, all found with their value -/
+example : (traverse (run exLimP4 id {} exTwoGens).1.a).map (·.key) = [4, 5, 2, 3, 1] := by decide
+example : [1, 2, 3, 4, 5, 6].map (findVal exLimP4 id (run exLimP4 id {} exTwoGens).1.a)
+    = [some 10, some 20, some 30, some 40, some 50, none] := by decide
+
+/-- Open2N2<1> with a constant hash: the second insertion meets a refused growth and falls back to
+the existing 2-bucket table, which is then FULL; the third is refused with "table is full" -/
+def exFull : List Op :=
+  [.ins false 1 10 {}, .ins false 2 20 { refuseGrow := true }, .ins false 3 30 { refuseGrow := true },
+   .find 2, .rem 1, .ins false 3 30 { refuseGrow := true }]
+
+example : (run exOpen (fun _ => 0) {} (exFull.take 3)).1.a.gens.map (fun g => g.bs.map (isFull exOpen))
+    = [[true, true]] := by decide
+example : TableInv exOpen (fun _ => 0) (run exOpen (fun _ => 0) {} (exFull.take 3)).1.a :=
+  (C01_history_partial exOpen (fun _ => 0) exOpen_ok (exFull.take 3) (by decide)).2.1
+example : ((run exOpen (fun _ => 0) {} exFull).2.map Res.outcome)
+    = [.ok, .ok, .full, .ok, .ok, .ok] := by decide
+
+/-- a longer history: growth, interrupted migration, removal, second container, copy, merge,
+predicate removal, extract + re-insert, refused reservation, swap -/
+def exOps : List Op :=
+  [.ins false 1 10 {}, .ins false 2 20 {}, .ins false 3 30 {}, .ins false 4 40 {},
+   .ins false 5 50 { relocStop := some 1 }, .find 3, .rem 2, .ins true 4 44 {}, .ins true 9 99 {}, .copyTo,
+   .ins true 7 70 {}, .mergeTo, .remPred (fun it => it.key % 2 == 0), .ext 1, .reins {},
+   .reserve 40 { refuseGrow := true }, .swap]
+
+example : RunOK exLimP4 id {} exOps := by decide
+example : (traverse (run exLimP4 id {} exOps).1.a).map (·.key) = [1, 3, 4, 5, 7] := by decide
+example : (arun {} exOps ((run exLimP4 id {} exOps).2.map Res.outcome)).1.A.map (·.key) = [7, 5, 4, 3, 1] := by
+  decide
+
+/-! ## Why the side condition on faults is needed: a concrete counterexample -/
+
+/-- Open2N2<1> with nothrow-relocatable items and a fast nothrow hash (`nothrowReloc`) -/
+def exNR : Spec := Driver.HashTable.mkSpec "Open2N2" 1 8 8 false true true 0 1
+/-- the second insertion grows the table and its migration is "interrupted" before the first item -/
+def exNROps : List Op := [.ins false 1 10 {}, .ins false 2 20 { relocStop := some 0 }]
+
+theorem exNR_ok : SpecOK exNR := mkSpec_ok _ _ _ _ _ _ _ _ _ (by decide) (by decide)
+
+/-- two generations are left although lookups of this item category read only the newest one:
+key 1 is traversed but not found -/
+theorem unrestricted_faults_counterexample :
+    exNR.nothrowReloc = true ∧
+    (run exNR id {} exNROps).1.a.gens.map (fun g => (g.L, genCount g)) = [(2, 1), (1, 1)] ∧
+    (traverse (run exNR id {} exNROps).1.a).map (·.key) = [2, 1] ∧
+    findVal exNR id (run exNR id {} exNROps).1.a 1 = none ∧
+    lookup (arun {} exNROps ((run exNR id {} exNROps).2.map Res.outcome)).1.A 1 = some 10 := by
+  decide
+
+/-- hence the history statement without side conditions is false for the model -/
+theorem C01_history_full_false : ¬ C01_history_full := by
+  intro h
+  have h1 := (h exNR id exNR_ok exNROps).2.2.2.1 1
+  have h2 := unrestricted_faults_counterexample
+  rw [h2.2.2.2.1, h2.2.2.2.2] at h1
+  cases h1
+
+end Momo.HT
